@@ -1,12 +1,13 @@
 #!/bin/bash
-# copies finished round-3 outputs /tmp/seed3/Cxx.out/{a,b} to /verif/seeded/Cxx{e,f}
+# usage: import_round.sh <dir> <suffix-a> <suffix-b>   e.g. import_round.sh /tmp/seed4 g h
+# copies finished outputs <dir>/Cxx.out/{a,b} to /verif/seeded/Cxx{<suffix-a>,<suffix-b>}
 cd /verif
-for o in /tmp/seed3/C*.out; do
+for o in $1/C*.out; do
   id=$(basename $o .out)
   for x in a b; do
     [ -f $o/$x/patch.diff ] || continue
     [ -f $o/$x/meta.json ] || continue
-    y=e; [ $x = b ] && y=f
+    y=$2; [ $x = b ] && y=$3
     [ -d seeded/$id$y ] && continue
     mkdir -p seeded/$id$y && cp -r $o/$x/. seeded/$id$y/ && echo imported $id$y
   done
